@@ -252,9 +252,9 @@ fn dump(ax: &Axecutor, out: &mut String) {
     .unwrap();
     for (k, (start, len, dlen, acc, _name)) in ax.verif_areas().iter().enumerate() {
         let data = ax.verif_area_data(k).unwrap_or_default();
-        let shown = if data.len() > 4096 {
+        let shown = if data.len() > 256 {
             // long areas: length + a cheap checksum + both ends
-            let mut h: u64 = 1469598103934665603;
+            let mut h: u64 = 0xcbf29ce484222325;
             for b in &data {
                 h = (h ^ (*b as u64)).wrapping_mul(1099511628211);
             }
@@ -637,6 +637,27 @@ fn main() {
                 writeln!(w, "end").unwrap();
             } else {
                 cur.push(l);
+            }
+        }
+        w.flush().unwrap();
+    } else if args.len() >= 4 && args[1] == "decodefile" {
+        // axh decodefile <in> <out>: lines `<rip> <hexbytes>` -> decode lines
+        let f = BufReader::new(std::fs::File::open(&args[2]).expect("open"));
+        let mut w = BufWriter::new(std::fs::File::create(&args[3]).expect("create out"));
+        for l in f.lines() {
+            let l = l.unwrap();
+            let t: Vec<&str> = l.split_whitespace().collect();
+            if t.len() < 2 {
+                continue;
+            }
+            let rip = hex(t[0]);
+            let b = bytes(t[1]);
+            let mut dec = Decoder::with_ip(64, &b, rip, DecoderOptions::NONE);
+            let i = dec.decode();
+            if i.is_invalid() {
+                writeln!(w, "x nodec {:x} {}", rip, hexs(&b)).unwrap();
+            } else {
+                writeln!(w, "{}", instr_line(&i, &b)).unwrap();
             }
         }
         w.flush().unwrap();
